@@ -152,7 +152,7 @@ def solve_neq(pairs, pc=(), timeout_s=120, assumptions=None, congruence=True):
             STATS['query_build_aborted'] = STATS.get('query_build_aborted', 0) + 1
             return 'unknown', None, time.time() - t0
     s.add(z3.Or(*disj))
-    r = s.check()
+    r = z3_check(s, timeout_s)
     dt = time.time() - t0
     if r == z3.unsat:
         return 'unsat', None, dt
@@ -169,15 +169,67 @@ def solve_neq(pairs, pc=(), timeout_s=120, assumptions=None, congruence=True):
     return 'unknown', None, dt
 
 
+def z3_check(s, timeout_s):
+    """s.check() with a hard wall-clock limit: z3's own timeout is not honoured inside some preprocessing steps (measured:
+    a 20 s query over deep ARX terms ran for 20 minutes), so a watchdog interrupts the context; an interrupted query is unknown"""
+    import threading
+    import z3
+    tm = threading.Timer(timeout_s + 3, lambda: s.ctx.interrupt())
+    tm.daemon = True
+    tm.start()
+    try:
+        return s.check()
+    except z3.Z3Exception:
+        return z3.unknown
+    finally:
+        tm.cancel()
+
+
+_VW_SEEN = {}
+
+
+def _collect_var_widths(j, widths):
+    stack = [j]
+    seen = set()
+    while stack:
+        k = stack.pop()
+        if k in seen:
+            continue
+        seen.add(k)
+        op, w, args = T.nodes[k]
+        if op == 'var':
+            widths[args] = w
+        else:
+            stack.extend(T.node_deps(k))
+
+
 def pc_feasible(pc, timeout_s=60):
     import z3
     if not pc:
         return 'sat', {}
+    # fast path: most feasible paths are satisfied by some corner / random vector (no solver call)
+    names, _n = T.support([c for c, v in pc])
+    widths = {}
+    for c, v in pc:
+        for j in T.value_deps(c):
+            _collect_var_widths(j, widths)
+    from . import congr
+    rng = random.Random(len(pc))
+    for asg in congr.corner_assignments(widths, rng, nrand=1)[:10]:
+        ev = T.Evaluator(asg)
+        try:
+            if all(ev.val(c) == (1 if v else 0) for c, v in pc):
+                return 'sat', dict(asg)
+        except Exception:
+            break
     s = z3.Solver()
     s.set('timeout', int(timeout_s * 1000))
+    tb = time.time()
     for a in pc_z3(pc):
         s.add(a)
-    r = s.check()
+    if time.time() - tb > timeout_s:
+        return 'unknown', None
+    r = z3_check(s, timeout_s)
     if r == z3.sat:
         m = s.model()
         md = {}
@@ -562,6 +614,8 @@ def _worker(job):
         return sub.export()
     T.reset()
     _CONGR_CACHE.clear()
+    from . import congr as _congr
+    _congr._PC_MODEL_CACHE.clear()
     try:
         fn(sub, task)
     except Exception as e:
@@ -601,7 +655,53 @@ def parallel(run, fn, tasks, nproc=None):
         for j in jobs:
             run.absorb(_worker(j))
         return
+    # one forked process per task (the parent holds the parsed IR, fork is copy-on-write): a crashing or runaway task is
+    # attributed exactly and cannot stall the pool; VERIF_TASK_TIMEOUT_S bounds every task
+    from multiprocessing import connection as mpc
     ctx = mp.get_context('fork')
-    with ctx.Pool(min(nproc, len(jobs)), maxtasksperchild=8) as pool:
-        for d in pool.imap_unordered(_worker, jobs, chunksize=1):
-            run.absorb(d)
+    task_timeout = float(os.environ.get('VERIF_TASK_TIMEOUT_S', '1800') or 1800)
+    pending = list(jobs)
+    running = {}
+    while pending or running:
+        while pending and len(running) < nproc:
+            job = pending.pop(0)
+            if deadline is not None and time.time() > deadline:
+                run.extra['tasks_skipped_budget'] = run.extra.get('tasks_skipped_budget', 0) + 1
+                continue
+            pr, pw = ctx.Pipe(duplex=False)
+            p = ctx.Process(target=_child, args=(job, pw))
+            p.start()
+            pw.close()
+            running[p] = (pr, job, time.time())
+        if not running:
+            continue
+        ready = mpc.wait([c for c, _, _ in running.values()], timeout=1.0)
+        for p, (c, job, ts) in list(running.items()):
+            if c in ready:
+                try:
+                    d = c.recv()
+                except (EOFError, OSError):
+                    d = None
+                c.close()
+                p.join(10)
+                del running[p]
+                if d is None:
+                    run.inconclusive.append('worker process died (exit code %s) in task %r' % (p.exitcode, job[4] if not isinstance(job[4], list) else job[4][:1]))
+                else:
+                    run.absorb(d)
+            elif time.time() - ts > task_timeout:
+                p.kill()
+                p.join(10)
+                c.close()
+                del running[p]
+                run.inconclusive.append('task %r exceeded %.0f s and was stopped' % (job[4] if not isinstance(job[4], list) else job[4][:1], task_timeout))
+
+
+def _child(job, conn):
+    try:
+        d = _worker(job)
+        conn.send(d)
+    finally:
+        conn.close()
+        sys.stdout.flush()
+        os._exit(0)
